@@ -1015,6 +1015,69 @@ func emitFacts(path string, pkgs []*packages.Package) {
 						return false
 					})
 				}
+				if p.Name == "allocation" && fd.Recv != nil && (fd.Name.Name == "expirePermission" || fd.Name.Name == "expireChannelBind") {
+					// the expiry callback of an entry takes the list's lock first and, inside that critical section, stands down
+					// unless the entry is still listed (by identity) and its expiry time has come
+					lock := "a.permissionsLock"
+					ident := "!= perm"
+					if fd.Name.Name == "expireChannelBind" {
+						lock, ident = "a.channelBindingsLock", "!= chanBind"
+					}
+					txt := nodeText(p, fd.Body)
+					first := ""
+					if len(fd.Body.List) > 0 {
+						first = nodeText(p, fd.Body.List[0])
+					}
+					found["entryExpiry_"+fd.Name.Name] = first == lock+".Lock()" && strings.Contains(txt, "defer "+lock+".Unlock()") &&
+						strings.Contains(txt, "time.Now().Before(") && strings.Contains(txt, ident) && !strings.Contains(txt, lock+".Unlock()\n\t"+lock)
+				}
+				if p.Name == "allocation" && fd.Recv != nil && fd.Name.Name == "start" {
+					// the timers started for permissions and bindings call those callbacks
+					txt := nodeText(p, fd.Body)
+					if strings.Contains(txt, "expirePermission(p)") {
+						found["entryExpiry_startPermission"] = true
+					}
+					if strings.Contains(txt, "expireChannelBind(c)") {
+						found["entryExpiry_startChannelBind"] = true
+					}
+				}
+				if p.Name == "allocation" && fd.Recv != nil && (fd.Name.Name == "AddPermission" || fd.Name.Name == "AddChannelBind") {
+					// lookup + refresh happen inside the write-locked section (no read-locked lookup followed by an unlocked refresh)
+					lock := "a.permissionsLock"
+					if fd.Name.Name == "AddChannelBind" {
+						lock = "a.channelBindingsLock"
+					}
+					txt := strings.ReplaceAll(nodeText(p, fd.Body), "defer "+lock+".Unlock()", "defer-unlock")
+					li, ri := strings.Index(txt, lock+".Lock()"), strings.Index(txt, ".refresh(")
+					found["entryRefresh_"+fd.Name.Name] = li >= 0 && ri > li && !strings.Contains(txt, lock+".RLock()") &&
+						!strings.Contains(txt[:ri], lock+".Unlock()")
+				}
+				if p.Name == "allocation" && fd.Name.Name == "Refresh" && fd.Recv != nil {
+					// Allocation.Refresh reports the outcome of lifetimeTimer.Reset: false when the timer had fired or been stopped
+					txt := nodeText(p, fd.Body)
+					found["refresh_reports_expiry_alloc"] = fd.Type.Results != nil && len(fd.Type.Results.List) == 1 &&
+						strings.Contains(txt, "if !a.lifetimeTimer.Reset(lifetime)") && strings.Contains(txt, "return false")
+				}
+				if p.Name == "server" && fd.Name.Name == "handleRefreshRequest" {
+					// the handler answers success only when Refresh reported that the lifetime had not run out
+					ok := false
+					ast.Inspect(fd.Body, func(n ast.Node) bool {
+						if is, isIf := n.(*ast.IfStmt); isIf && strings.Contains(types.ExprString(is.Cond), "!a.Refresh(") {
+							last := is.Body.List[len(is.Body.List)-1]
+							if _, isRet := last.(*ast.ReturnStmt); isRet && strings.Contains(nodeText(p, last), "errNoAllocationFound") {
+								ok = true
+							}
+						}
+						return true
+					})
+					found["refresh_reports_expiry_handler"] = ok
+				}
+				if p.Name == "client" && fd.Recv != nil && (fd.Name.Name == "createPermission" || fd.Name.Name == "forgetIdlePermission") {
+					// a writer that gives up removes the permission entry through deleteIf(addr, perm) only
+					txt := nodeText(p, fd.Body)
+					key := "clientPerm_" + fd.Name.Name
+					found[key] = strings.Contains(txt, "permMap.deleteIf(addr, perm)") && !strings.Contains(txt, "permMap.delete(")
+				}
 				if p.Name == "allocation" && fd.Name.Name == "AddPermission" {
 					// the permission's timer is armed (perms.start) while permissionsLock is write-held, i.e. between
 					// `a.permissionsLock.Lock()` and `a.permissionsLock.Unlock()` in the same block, and the
@@ -1044,7 +1107,16 @@ func emitFacts(path string, pkgs []*packages.Package) {
 			}
 		}
 	}
-	for _, k := range []string{"addPermission_arms_under_lock", "addPermission_callback_after_unlock", "bindTimer_decides_under_lock"} {
+	found["refresh_reports_expiry"] = found["refresh_reports_expiry_alloc"] && found["refresh_reports_expiry_handler"]
+	found["clientPerm_delete_conditional"] = found["clientPerm_createPermission"] && found["clientPerm_forgetIdlePermission"]
+	if os.Getenv("XLATE_DEBUG") != "" {
+		fmt.Fprintf(os.Stderr, "facts: %v\n", found)
+	}
+	found["entryExpiry_decides_under_lock"] = found["entryExpiry_expirePermission"] && found["entryExpiry_expireChannelBind"] &&
+		found["entryExpiry_startPermission"] && found["entryExpiry_startChannelBind"] &&
+		found["entryRefresh_AddPermission"] && found["entryRefresh_AddChannelBind"]
+	for _, k := range []string{"addPermission_arms_under_lock", "addPermission_callback_after_unlock", "bindTimer_decides_under_lock",
+		"refresh_reports_expiry", "clientPerm_delete_conditional", "entryExpiry_decides_under_lock"} {
 		fmt.Fprintf(&w, "def %s : Bool := %v\n", k, found[k])
 	}
 	fmt.Fprintf(&w, "end Gen.Facts\n")
